@@ -44,6 +44,9 @@ def cases(tier, seed):
         yield ('C', t)
     for t in cm.k2_subset(('x', 'X', 'y')):
         yield ('C', t)
+    from . import families
+    for t in families.deep_trees():
+        yield ('C', t)
     for t in list(cm.arith_trees()) + list(cm.onearg_aggregate_trees()):
         yield ('C', t)
 
